@@ -471,10 +471,24 @@ func montCarryPairs(f *Field, rng *Rng) [][2]*big.Int {
 	for _, T := range targets {
 		y0 := new(big.Int).Mul(T, q0)
 		y0.Neg(y0).Mod(y0, mod)
-		for rep := 0; rep < 2; rep++ {
+		for rep := 0; rep < 4; rep++ {
 			hi := rng.Below(f.Q)
 			if rep == 1 {
 				hi = new(big.Int).Sub(f.Q, one) // upper limbs as large as the modulus allows: large incoming carries
+			}
+			if rep >= 2 {
+				// middle limbs all ones (every partial product x[0]*y[j] + t[j] + carry then carries on), top limb zero or just
+				// below the modulus' top limb
+				hi = new(big.Int)
+				for j := 1; j < f.Limbs-1; j++ {
+					hi.Or(hi, new(big.Int).Lsh(mask, uint(j)*W))
+				}
+				if rep == 3 {
+					top := limb(f.Q, f.Limbs-1)
+					if top.Sign() > 0 {
+						hi.Or(hi, new(big.Int).Lsh(new(big.Int).Sub(top, one), uint(f.Limbs-1)*W))
+					}
+				}
 			}
 			y := new(big.Int).Or(new(big.Int).Lsh(new(big.Int).Rsh(hi, W), W), y0)
 			if y.Cmp(f.Q) >= 0 {
